@@ -40,7 +40,7 @@ PROPS = {
                 rule="index i -> (variable selector, value selector) = i mod 154 over the full 11 x 14 matrix, brancher shape (i div 154) mod 5 in {independent, dynamic, alternating, autonomous backup, default}; models with holes, negative values, size-2 domains; half of the runs under random restart/learning options; Decision / NoDecision hook events judged; non-trivial = >=2 decisions"),
     "C10": dict(kind="lib", level="exploration", modes=[("c10", 9000, 120000)], floor=500,
                 rule="random histories of 4-14 operations on one solver {new variables, post, satisfy, satisfy under assumptions (+/- core extraction), iterate k, optimise (both procedures)}, a quarter of the solves with a termination condition that fires at poll 0-5; every answer judged against a shadow model (posted constraints, solutions blocked by iteration per the documented rule, envelope for objective cuts); non-trivial = history contains >=2 solve operations"),
-    "C11": dict(kind="lib", level="fault_enumeration", modes=[("c11", 1600, 12000)], floor=150,
+    "C11": dict(kind="lib", level="fault_enumeration", modes=[("c11", 3200, 16000)], floor=150,
                 rule="per model and entry point (satisfy / iterate / optimise sat-unsat / optimise unsat-sat, by index mod 4): uninterrupted run counts N polls, then the run is repeated on an identically seeded fresh solver with the termination condition firing at poll k for k = 0, s, 2s, ... < N (s = max(1, N div 40) quick, N div 400 thorough) and resumed without interruption; non-trivial = N >= 3 and >= 2 runs actually fired"),
     "C16": dict(kind="lib", level="exploration", modes=[("c16", 18000, 270000)], floor=1000,
                 rule="single-constraint models (12 kinds by index) over domains of <= 3 values placed near 0, 2^15, 2^16, 46340, 2^30, +-(2^31-1) with scales up to 65536 and offsets / right-hand sides up to 2^31-1; exact i128 enumeration gives the solution set; post-time errors, root bounds and the iterated solution set are compared; each case labelled with magnitude classes computed from the input in i128; every case is non-trivial (large-magnitude arithmetic at post time)"),
